@@ -207,6 +207,55 @@ def _judge_read(res, ids, statuses, shape, gstatus, det):
     return out
 
 
+def case_ip_read_big(p):
+    """A read of many characteristics (a bridge poll).  However many requests the library turns it into, each characteristic ends up with what
+    the accessory said in the answer to the request that carried it: a request-wide error belongs to the ids of THAT request only."""
+    import json as _json
+
+    n_ids, fail_at = p["n"], p["fail_at"]
+    ids = [(1 + (k % 3), 100 + k) for k in range(n_ids)]
+    out = []
+    rig = IpRig(seed=p.get("seed", 0))
+    try:
+        said = {}
+        nreq = {"n": 0}
+
+        def get(sess, method, target, headers, body):
+            asked = [tuple(int(y) for y in x.split(".")) for x in target.split("id=")[1].split("&")[0].split(",")]
+            k = nreq["n"]
+            nreq["n"] += 1
+            if fail_at is not None and k == fail_at:
+                for a in asked:
+                    said[a] = ("status", -70407)
+                return 207, _json.dumps({"status": -70407}).encode(), "application/hap+json"
+            for a in asked:
+                said[a] = ("value", a[0] * 1000 + a[1])
+            return 200, _json.dumps({"characteristics": [{"aid": a, "iid": i, "value": a * 1000 + i} for a, i in asked]}).encode(), "application/hap+json"
+
+        rig.acc.handler = std_handler({("GET", "/characteristics"): get})
+        rig.connect()
+        det = {"transport": "ip", "n_ids": n_ids, "request_answered_with_a_request_wide_error": fail_at}
+        try:
+            res = rig.run(rig.pairing.get_characteristics(list(ids)))
+        except Exception as e:  # noqa: BLE001
+            return [(f"ip:big-read-raises:{type(e).__name__}", dict(det, err=str(e)[:160]))]
+        det["requests"] = nreq["n"]
+        for a in ids:
+            r = res.get(a)
+            kind, v = said.get(a, ("never-asked", None))
+            if kind == "never-asked":
+                out.append(("ip:big-read:characteristic-never-requested", dict(det, key=a)))
+            elif kind == "value" and (r is None or r.get("value") != v or r.get("status", 0) != 0):
+                out.append(("ip:big-read:value-the-accessory-returned-replaced-by-something-else", dict(det, key=a, got=r)))
+            elif kind == "status" and (r is None or r.get("status") not in (v, -abs(v)) or "value" in r):
+                out.append(("ip:big-read:request-wide-error-not-applied-to-the-ids-of-its-request", dict(det, key=a, got=r)))
+            if len(out) >= 3:
+                break
+    finally:
+        rig.close()
+    return out
+
+
 def case_ip_read_overlap(p):
     """Several callers read at the same time on one pairing (the same ids, or different ones): the accessory is silent until all of them have
     asked, then answers one request after the other.  Every caller gets the outcome of every characteristic IT asked for."""
@@ -304,7 +353,7 @@ def case_ip_read(p):
     return out
 
 
-CASES = {"ip_write": case_ip_write, "ip_read": case_ip_read, "ip_read_overlap": case_ip_read_overlap}
+CASES = {"ip_write": case_ip_write, "ip_read": case_ip_read, "ip_read_overlap": case_ip_read_overlap, "ip_read_big": case_ip_read_big}
 for _mod in ("c13_coap", "c13_ble"):
     try:
         _m = __import__(f"vt.props.{_mod}", fromlist=["CASES"])
@@ -391,6 +440,10 @@ def plan(tier):
                     work.append(("ip_read", {"ids": ids, "replies": reps[i : i + 150], "container": cont}))
                 work.append(("ip_read", {"ids": ids, "replies": reps[i : i + 150], "wire": "chunked-lower", "env": dict(delivery="bytes", frames=[7])}))
                 work.append(("ip_read", {"ids": ids, "replies": reps[i : i + 150], "env": dict(delivery="3/4", frames=[48])}))
+    # big reads (bridge polls): if the library splits them, a request-wide error belongs to its own request
+    for n_ in (10, 48, 49, 97, 150, 400):
+        for fail_at in (None, 0, 1, 2, 3):
+            work.append(("ip_read_big", {"ids": [n_], "replies": [None], "n": n_, "fail_at": fail_at}))
     # overlapping readers on one pairing
     for ids in ([(1, 9)], [(1, 9), (1, 10)], [(1, 9), (2, 9), (1, 10)]):
         reps = [([0] * len(ids), "list", None), ([0] + [-70402] * (len(ids) - 1), "list", None), ([0] + ["omit"] * (len(ids) - 1), "list", -70402), (["omit"] * len(ids), "no-list", -70402)]
